@@ -91,6 +91,20 @@ func verifSubject(n int) string {
 	if verifParam("mode") == "b" {
 		return string(verifBytes("b", n))
 	}
+	if ra := verifParam("runealphabet"); ra != "" {
+		// subjects over a small alphabet of runes of different UTF-8 widths: each position is a solver
+		// variable that indexes the alphabet
+		tab := []rune(ra)
+		ix := ""
+		for i := range tab {
+			ix += string(rune(i + 1))
+		}
+		rs := make([]rune, n)
+		for i := range rs {
+			rs[i] = tab[int(verifByteIn("r"+strconv.Itoa(i), ix))-1]
+		}
+		return string(rs)
+	}
 	if al := verifParam("alphabet"); al != "" {
 		// longer subjects over a small ASCII alphabet (each byte a solver variable constrained to the set)
 		b := make([]byte, n)
